@@ -134,7 +134,14 @@ class StubRNG(object):
             np.zeros(shape)
 
     def random(self, size=None):
-        return self._reals('u', size, 0, 1)
+        r = self._reals('u', size, 0, 1)
+        if getattr(W, 'opts', {}).get('open_uniform'):
+            # histories without the measure-zero draw u == 0
+            import numpy
+            for v in (r.reshape(-1).tolist() if hasattr(r, 'reshape')
+                      else [r]):
+                W.assume(v > 0)
+        return r
 
     def uniform(self, low=0.0, high=1.0, size=None):
         if low != 0.0 or high != 1.0:
